@@ -137,6 +137,15 @@ struct Mon {
 		// --- guards: pending + current; others: current
 		if (e.has_pending) cmp_trans(e.pending, cx.pending, "pendingTransition()", "C03", "pending-is-request", e);
 		if (e.has_current) cmp_trans(e.current, cx.current, "currentTransition()", "C06", "current-view", e);
+		// --- the transition history as seen through a control: stable (= what the last step left) in phase callbacks and query
+		if (e.has_previous && (cx.phase || e.method == M_QUERY) && T.prev_known) {
+			const Req& r = T.prev; const SutTrans& t = e.previous;
+			auto same = [&](const Req& q) { return q.has ? (t.valid && t.dest == q.dest && t.origin == q.origin && (t.has_payload != 0) == q.has_payload && (!q.has_payload || memcmp(t.payload, q.payload, g_info->payload_vsize) == 0)) : !t.valid; };
+			if (!same(r) && !(T.prev_alt_ok && same(T.prev_alt))) {
+				viol("C11", "history-visible-in-controls", "control.previousTransitions() inside " + ev_str(e) + " is " + tr_str(t) + " but the last step applied " + req_str(r));
+				if (r.has_payload || t.has_payload) viol("C07", "payload-in-history", "control.previousTransitions() inside " + ev_str(e) + " shows " + tr_str(t) + ", the transition applied by the last step was " + req_str(r));
+			}
+		}
 		// --- C06: isActive(id) for every id agrees with the machine; C01: machine names the open state
 		int cnt = 0, which = -1;
 		for (unsigned i = 0; i < N; ++i) if (bit_get(e.active, i)) { ++cnt; which = static_cast<int>(i); }
@@ -255,11 +264,14 @@ struct Mon {
 					{
 						const bool lc_exp = method == M_ENTER || method == M_EXIT || method == M_REENTER;
 						const bool lc_got = e && (e->method == M_ENTER || e->method == M_EXIT || e->method == M_REENTER);
+						if (lc_got && T.slot.has && e->cls == T.slot.dest && (e->method == M_ENTER || e->method == M_REENTER))
+							viol("C04", "leftover-not-applied-blindly", "the request left over at the substitution limit " + req_str(T.slot) + " was applied (" + ev_str(*e) + ") without passing guards");
 						if (lc_exp || lc_got) viol("C01", "lifecycle-pairing", std::string(METHOD_NAMES[method]) + "(" + sid(cls) + ") was due (state " + (T.open < 0 ? std::string("none") : S(T.open)) + " is the one whose enter() ran last without exit()), but " + got + " ran");
 					}
 					structural(cx.prop, cx.clause, std::string("expected ") + METHOD_NAMES[method] + "(" + sid(cls) + "), got " + got); return false;
 				}
 				viol("C15", "each-once", std::string(METHOD_NAMES[method]) + "(" + sid(cls) + ") reached only " + S(j) + " of the " + S(k + 1) + " classes (injections + state)");
+				if (method == M_ENTER || method == M_EXIT || method == M_REENTER) viol("C01", "lifecycle-pairing", std::string(METHOD_NAMES[method]) + " of state " + sid(cls) + " reached only " + S(j) + " of its " + S(k + 1) + " classes: an injected base is left with an unpaired enter()/exit()");
 				if (method == M_ENTRY_GUARD || method == M_EXIT_GUARD) viol("C03", "guards-consulted", std::string(METHOD_NAMES[method]) + " of state " + sid(cls) + " was consulted only in part: " + S(j) + " of its " + S(k + 1) + " guard callbacks (injections + state) ran");
 				return true;
 			}
@@ -555,7 +567,11 @@ struct Mon {
 		if (matches(T.prev) || (T.prev_alt_ok && matches(T.prev_alt))) return;
 		const Req& r = T.prev;
 		if (!r.has) { viol("C11", "history-empty-when-nothing-applied", "previousTransition() is " + tr_str(o.prev) + " although the last step applied no transition"); return; }
-		if (!o.prev.valid || o.prev.dest != r.dest) { viol("C11", "history-names-applied-transition", "previousTransition() is " + tr_str(o.prev) + " but the transition actually applied was " + req_str(r)); return; }
+		if (!o.prev.valid || o.prev.dest != r.dest) {
+			viol("C11", "history-names-applied-transition", "previousTransition() is " + tr_str(o.prev) + " but the transition actually applied was " + req_str(r));
+			if (r.has_payload) viol("C07", "payload-in-history", "the applied transition " + req_str(r) + " carried a payload that previousTransition() " + tr_str(o.prev) + " does not show");
+			return;
+		}
 		if (o.prev.origin != r.origin) viol("C11", "history-origin", "previousTransition() has origin " + sid(o.prev.origin) + ", the surviving request was made by " + sid(r.origin));
 		if ((o.prev.has_payload != 0) != r.has_payload || (r.has_payload && memcmp(o.prev.payload, r.payload, g_info->payload_vsize) != 0)) {
 			viol("C11", "history-payload", "previousTransition() payload differs from that of the surviving request " + req_str(r));
@@ -706,6 +722,7 @@ struct Mon {
 	bool broken = false;
 
 	void check_save() {
+		if (x.save_differs) { viol("C12", "canonical", "save() of one and the same machine produced different bytes in two buffers that held different contents before the call"); viol("C17", "output-independent-of-prior-memory", "the serialized form depends on what the SerialBuffer held before save()"); }
 		if (!x.canary_ok) { viol("C12", "save-stays-in-buffer", "save() wrote outside the SerialBuffer object"); viol("C18", "no-out-of-bounds-access", "save() wrote outside the SerialBuffer object (canary bytes next to it changed)"); }
 		const unsigned bits = g_info->serial_bits;
 		for (unsigned b = bits; b < 8u * g_info->serial_bytes; ++b) if (x.saved_bytes[b >> 3] & (1u << (b & 7))) { viol("C12", "save-stays-in-buffer", "save() left bit " + S(static_cast<int>(b)) + " set, beyond the declared capacity of " + S(static_cast<int>(bits)) + " bits (buffer was dirty before the call)"); break; }
@@ -723,8 +740,9 @@ struct Mon {
 uint64_t fnv(uint64_t h, const void* p, size_t n) { const uint8_t* b = static_cast<const uint8_t*>(p); for (size_t i = 0; i < n; ++i) { h ^= b[i]; h *= 0x100000001b3ULL; } return h; }
 uint64_t fnv8(uint64_t h, uint64_t v) { return fnv(h, &v, 8); }
 uint64_t hash_trans(uint64_t h, const SutTrans& t) {
-	h = fnv8(h, t.valid);
-	if (t.valid) { h = fnv8(h, t.origin); h = fnv8(h, t.dest); h = fnv8(h, t.has_payload); if (t.has_payload) h = fnv(h, t.payload, g_info->payload_vsize); }
+	// every field, also of an invalid transition: what payload()/origin expose must not depend on build, memory or logger either
+	h = fnv8(h, t.valid); h = fnv8(h, t.origin); h = fnv8(h, t.dest); h = fnv8(h, t.has_payload);
+	if (t.has_payload) h = fnv(h, t.payload, g_info->payload_vsize);
 	return h;
 }
 uint64_t hash_plan(uint64_t h, const PlanSnap& p) {
